@@ -440,6 +440,112 @@ def run_pesach_tlc(window, ctx):
     ctx.sample({"tlc_window_AM": list(window), "states": len(states), "last": states[-1]})
 
 
+# -- ordered pairs of calls: a result must not depend on which call came before ------------------------------------
+
+_PESACH_REF = None
+
+
+def run_pesach_pairs(block, ctx):
+    """Every ordered pair (y1, y2) of years 1..3000: jewish_pesach(y1) then jewish_pesach(y2); the second answer
+    must be the reference value of y2 (9 000 000 pairs; a one-slot memo with an incomplete key collides only
+    for particular pairs, e.g. 76 or 235 years apart)."""
+    global _PESACH_REF
+    if _PESACH_REF is None:
+        _PESACH_REF = [None] + [fast().date(hebrew.pesach_n(y))[1:] for y in range(1, 3001)]
+    ref = _PESACH_REF
+    f = Epoch.jewish_pesach
+    for y1 in block:
+        bad = 0
+        for y2 in range(1, 3001):
+            f(y1)
+            r = f(y2)
+            if (r[0], r[1]) != ref[y2]:
+                bad += 1
+                if bad <= 3:
+                    ctx.viol({"year": y2, "after": y1, "gregorian": y2 >= 1583}, "jewish_pesach(%d) right after "
+                             "jewish_pesach(%d) = %r, expected %r" % (y2, y1, tuple(r), ref[y2]), site="pesach_pair")
+        ctx.evals += 6000
+        ctx.transitions += 3000
+        ctx.nt_count += 3000
+        ctx.outcome(bad)
+    ctx.traces += len(block)
+    ctx.obs(block[0], block[-1])
+    ctx.sample({"first_year": block[0], "second_years": [1, 3000]})
+
+
+M2G_PAIR_DAYS = [(1, 1), (7, 15), (12, 29)]
+
+
+def run_m2g_pairs(block, ctx):
+    """Every ordered pair of Moslem years (h1, h2) in 1..2500 with the same month and day, for three (month, day):
+    moslem2gregorian(h1, m, d) then moslem2gregorian(h2, m, d); the second answer must be the tabular date."""
+    f = Epoch.moslem2gregorian
+    for (m, d) in M2G_PAIR_DAYS:
+        ref = [None] + [fast().date(_moslem_n(h, m, d)) for h in range(1, 2501)]
+        for h1 in block:
+            bad = 0
+            for h2 in range(1, 2501):
+                f(h1, m, d)
+                r = f(h2, m, d)
+                if (r[0], r[1], int(r[2])) != ref[h2]:
+                    bad += 1
+                    if bad <= 3:
+                        ctx.viol({"h": h2, "m": m, "d": d, "after": h1}, "moslem2gregorian(%d,%d,%d) right after "
+                                 "moslem2gregorian(%d,%d,%d) = %r, tabular calendar gives %r"
+                                 % (h2, m, d, h1, m, d, tuple(r), ref[h2]), site="m2g_pair")
+            ctx.evals += 5000
+            ctx.transitions += 2500
+            ctx.nt_count += 2500
+            ctx.outcome(bad)
+    ctx.traces += len(block)
+    ctx.obs(block[0], block[-1])
+    ctx.sample({"first_year": block[0], "month_day": list(M2G_PAIR_DAYS[0])})
+
+
+def check_impossible(y):
+    """Civil dates that do not exist are accepted silently by gregorian2moslem (it returns the Moslem date of the
+    day they overflow to); moslem2gregorian of that result must still be a real civil date - the one the tabular
+    calendar gives - whatever was asked just before."""
+    out = []
+    days = [(2, 30), (4, 31), (6, 31), (9, 31), (11, 31)]
+    if cal.mlen(y, 2) == 28:
+        days.append((2, 29))
+    if y == 1582:
+        days += [(10, dd) for dd in range(5, 15)]
+    for (mo, da) in days:
+        try:
+            r = tuple(Epoch.gregorian2moslem(y, mo, da))
+        except ValueError:
+            continue
+        except Exception as ex:
+            out.append("gregorian2moslem(%d,%d,%d) raised %r" % (y, mo, da, ex))
+            continue
+        try:
+            h, m, d = int(r[0]), int(r[1]), int(r[2])
+            if not (1 <= h <= 2500 and 1 <= m <= 12 and 1 <= d <= 30):
+                continue
+            back = tuple(Epoch.moslem2gregorian(h, m, d))
+            exp = fast().date(_moslem_n(h, m, d))
+            if (back[0], back[1], int(back[2])) != exp:
+                out.append("moslem2gregorian%r right after gregorian2moslem(%d,%d,%d) = %r, tabular calendar gives %r"
+                           % ((h, m, d), y, mo, da, back, exp))
+        except Exception as ex:
+            out.append("moslem2gregorian%r raised %r" % (r, ex))
+    return out
+
+
+def run_impossible(block, ctx):
+    for y in block:
+        ctx.evals += 12
+        ctx.nt_count += 1
+        ctx.transitions += 6
+        for msg in check_impossible(y):
+            ctx.viol({"year": y}, msg, site="impossible_date")
+        ctx.outcome(cal.mlen(y, 2))
+    ctx.traces += 1
+    ctx.sample({"year": block[0]})
+
+
 def clauses(tier):
     hs = islamic.year_starts(1, 2500)
     n_end = fast().n(3000, 12, 31)
@@ -452,6 +558,12 @@ def clauses(tier):
         Clause("moslem_to_civil", chunks(hs, 64), run_m2g, replay_m2g, floor=800000, shape="S"),
         Clause("civil_to_moslem", chunks(hs_civil, 64), run_g2m, replay_g2m, floor=800000,
                shape="S"),
+        Clause("pesach_pairs", chunks(list(range(1, 3001)), 64), run_pesach_pairs,
+               lambda c: check_pesach(c["year"]), floor=1000000, shape="H"),
+        Clause("moslem_year_pairs", chunks(list(range(1, 2501)), 64), run_m2g_pairs,
+               lambda c: [], floor=1000000, shape="H"),
+        Clause("impossible_civil_dates", chunks(list(range(623, 3001)), 16), run_impossible,
+               lambda c: check_impossible(c["year"]), floor=2000, shape="H"),
     ] + ([Clause("tlc_cross_model", TLC_WINDOWS, run_tlc, replay_m2g, floor=1000, shape="S"),
           Clause("easter_tlc_model", [(-4712, -2001), (-2000, -1), (0, 1582), (1583, 3999), (4000, 6999), (7000, 10000)],
                  run_easter_tlc, lambda c: check_easter(c["year"]), floor=10000, shape="S"),
